@@ -18,12 +18,17 @@ def run(chk, tier):
     chk.rule("R-DEFINE", "functions that define their destination do so before accumulating into it")
     nd = bitmaprules.define_before_accumulate(chk, P, DEFINING)
     chk.floor("R-DEFINE", "accumulating sites in defining functions", nd, 4)
+    chk.rule("R-CAPFIELD", "the capacity recorded for a heap array (X->*allocated* = F) has the same extent signature as the allocation of that array in the same function (X->A = alloc(E * sizeof ..))")
+    import capfield
+    ncf = capfield.run(chk, P, units=('bitmap.c',))
+    chk.floor("R-CAPFIELD", "recorded capacities paired with an allocation", ncf, 2)
     chk.rule("R-MINUS1", "documented -1 conventions for infinite sets")
     bitmaprules.early_minus_one(chk, P)
     chk.rule("R-PROG", "loop progress")
     nl = progloops.run(chk, P, ["bitmap.c"])
     chk.floor("R-PROG", "in-scope loops", nl, 18)
-    chk.decided += ["results do not depend on whether the destination aliases an operand (effect order on all paths)",
+    chk.decided += ['ulongs_allocated always records the size of the ulongs allocation',
+                    "results do not depend on whether the destination aliases an operand (effect order on all paths)",
                     "results do not depend on the history that built a set (allocation size never consulted; infinite flag always consulted; defining functions overwrite)",
                     "-1 conventions for infinite sets (weight/last/last_unset/nr_ulongs)"]
     chk.undecided += ["that each operation computes the right set (first/next/last arithmetic, range masks, compare orderings, singlify): value-level; in particular the sign of hwloc_bitmap_compare_first's tail is not seen"]
